@@ -17,7 +17,7 @@ pub fn property() -> Property {
             "reference request builder/parser in harness/src/reference/http.rs (RFC 7230 §5.3/§5.4)",
             "H6 verif_parse_and_rewrite calls the private parse_http_request + build_forward_request unchanged",
         ],
-        families: vec![(Box::new(RewriteFam), 150_000, 1_200_000), (Box::new(crate::props::e2e::ProxyFam), 500, 3_000)],
+        families: vec![(Box::new(RewriteFam), 150_000, 4_000_000), (Box::new(crate::props::e2e::ProxyFam), 500, 3_000)],
     }
 }
 
